@@ -69,8 +69,11 @@ impl SocketRecv for DealerSocket {
                 Some((_peer_id, Ok(_))) => {
                     // Ignore non-message frames
                 }
-                Some((_peer_id, Err(e))) => {
-                    // Handle potential errors from the fair queue
+                Some((peer_id, Err(e))) => {
+                    // Forget the failed peer (write half and queued read half), as PULL and
+                    // ROUTER do: otherwise the same dead connection is reported again by every
+                    // later recv and sends are still routed to it.
+                    self.backend.peer_disconnected(&peer_id);
                     return Err(e.into());
                 }
                 None => {
